@@ -6,6 +6,7 @@ import (
 	"fmt"
 	"go/token"
 	"go/types"
+	"regexp"
 	"sort"
 	"strings"
 	"sync"
@@ -225,6 +226,7 @@ func (x *Exec) frameCheck(fr *Frame, st *State, c *FuncContract, ce *CEnv, pos t
 // ---------------------------------------------------------------------------
 
 type VerifyOpts struct {
+	Kinds    *regexp.Regexp // when set, only obligations of these kinds are discharged
 	Timeout  int
 	Thorough bool
 	Workers  int
@@ -276,6 +278,10 @@ func verifyFunction(prog *ssa.Program, fset *token.FileSet, cs *ContractSet, fn 
 	sem := make(chan struct{}, opts.Workers)
 	for i, ob := range x.oblOrder {
 		i, ob := i, ob
+		if opts.Kinds != nil && !opts.Kinds.MatchString(ob.Kind) {
+			res[i] = Discharge{Ob: ob, Res: SolveResult{Status: "skipped"}}
+			continue
+		}
 		wg.Add(1)
 		sem <- struct{}{}
 		go func() {
@@ -288,7 +294,7 @@ func verifyFunction(prog *ssa.Program, fset *token.FileSet, cs *ContractSet, fn 
 	// second chance with a longer budget for a few obligations left undecided under load
 	var again []int
 	for i, d := range res {
-		if d.Res.Status == "timeout" || d.Res.Status == "unknown" || d.Res.Status == "cancelled" {
+		if (d.Res.Status == "timeout" || d.Res.Status == "unknown" || d.Res.Status == "cancelled") && !d.Ob.Cover {
 			again = append(again, i)
 		}
 	}
